@@ -13,7 +13,9 @@ BAD_INT_TOKENS = [b'x', b'12a', b'0x', b'08', b'9223372036854775808', b'1.5', b'
 FLT_TOKENS = [b'0', b'1.5', b'-2.25', b'1e3', b'.5', b'3.', b'1e-3', b'123456.789', b'0x1p4']
 BOOL_TOKENS = [b'true', b'false', b'yes', b'no', b'on', b'off', b'TRUE', b'Off', b'yEs']
 STR_TOKENS = [b'word', b'"two words"', b"'single'", b'"esc\\n\\"q\\""', b'""', b'a/b', b'"#nocomment"', b'x.y-z',
-              b'"$dollar"', b'"tab\\there"']
+              b'"$dollar"', b'"tab\\there"',
+              # slashes are ordinary characters of an unquoted word: URLs, doubled and trailing slashes
+              b'http://host/x', b'a//b', b'dir//', b'/usr/local/', b'nfs://box/vol//']
 
 
 def list_default(rng, kind):
